@@ -161,5 +161,31 @@ def enqueue (s : AbsState) (now : Int) (p : Probe) (after before : GoTime) : Abs
 
 def qCount (s : AbsState) : Nat := s.queue.length
 
+/-- ready items in delivery order: by (ready time, insertion id) -/
+def readySorted (q : List QItem) (now : Int) : List QItem :=
+  (q.filter fun x => x.ready ≤ now).foldr (fun x acc =>
+    let (lo, rest) := acc.span fun y => y.ready < x.ready ∨ (y.ready = x.ready ∧ y.id < x.id)
+    lo ++ x :: rest) []
+
+/-- `PopMany(n)` run atomically at clock `now`: rounds of "take the first `want` ready items, drop the
+expired ones (counted)" until the batch is full or a round finds nothing ready -/
+def popManyLoop (now : Int) (n : Nat) : Nat → List QItem → List Probe → Nat → List QItem × List Probe × Nat
+  | 0, q, got, exp => (q, got, exp)
+  | fuel + 1, q, got, exp =>
+    if got.length ≥ n then (q, got, exp)
+    else
+      let batch := (readySorted q now).take (n - got.length)
+      if batch.isEmpty then (q, got, exp)
+      else
+        let q' := q.filter fun x => !(batch.any fun b => b.id == x.id)
+        let fresh := batch.filter fun x => !x.expired now
+        popManyLoop now n fuel q' (got ++ fresh.map (·.probe)) (exp + (batch.length - fresh.length))
+
+def popMany (s : AbsState) (now : Int) (n : Int) : AbsState × List Probe × Nat :=
+  if n ≤ 0 then (s, [], 0)
+  else
+    let (q, got, exp) := popManyLoop now n.toNat (s.queue.length + 1) s.queue [] 0
+    ({ s with queue := q }, got, exp)
+
 end AbsState
 end Swat4
